@@ -1,3 +1,5 @@
 CONSTANTS DeepCopy = TRUE  Family = "all"  MaxMut = 2  ResaveEdges = TRUE  MaxOps = 2  Contexts = {"L1", "L2", "L3", "B"}
-INIT GenInit
-NEXT GenNext
+INIT GenInitAll
+NEXT GenNextAll
+INVARIANT GraphTypeOK
+INVARIANT LoadReproducesLastSaved
